@@ -69,7 +69,7 @@ def run(tier):
         for n in (1, 2, 3):
             for vn in ((2, 3) if q else (1, 2, 3)):
                 jobs.append(dict(base, harness="VerifC03PyPI", params={"two": 0, "aop": op, "an": n, "vn": vn}))
-    for (o1, o2) in ([(3, 4), (3, 1), (6, 1), (0, 5), (7, 2)] if q else list(itertools.product(range(9), repeat=2))[::2]):
+    for (o1, o2) in ([(3, 4), (3, 1), (6, 1), (0, 5), (7, 2), (1, 1), (8, 8), (1, 8), (8, 1), (4, 5)] if q else list(itertools.product(range(9), repeat=2))[::2]):
         for n in (2, 3):
             jobs.append(dict(base, harness="VerifC03PyPI", params={"two": 1, "aop": o1, "an": n, "bop": o2, "bn": 2, "vn": 2}))
     # Maven
